@@ -378,7 +378,7 @@ pub fn get(id: &str, thorough: bool) -> Option<PropDef> {
             let mut p = Profile::base("C10");
             p.p_late = (1, 4);
             p.w_how = [1, 8, 1, 10, 0];
-            p.timeouts = vec![0, 1, 2, 3, 4, 5, 6, 7, 8, 10, 12, 16, 20, 30, 40, 1_000_000];
+            p.timeouts = vec![0, 1, 2, 3, 4, 5, 6, 7, 8, 10, 12, 16, 20, 30, 40, 1_000_000, crate::scenario::MS_MAX];
             p.caps = vec![1, 1, 2, 3, 8, 32];
             p.clients = (1, 5);
             p.ops = (1, 8);
@@ -441,6 +441,8 @@ pub fn get(id: &str, thorough: bool) -> Option<PropDef> {
 
         "C12" => {
             let mut p = Profile::base("C12");
+            p.p_par = (1, 2);
+            p.max_peer_sends = 3;
             p.p_cancel = (1, 6);
             p.actors = (2, 4);
             p.clients = (1, 4);
@@ -564,6 +566,8 @@ pub fn get(id: &str, thorough: bool) -> Option<PropDef> {
             } else {
                 p.w_kill = 1;
                 p.w_msg_out = [20, 1, 1];
+                p.p_par = (1, 2);
+                ring.p_par = (1, 2);
                 PropDef {
                     id: "C15",
                     profiles: vec![p, ring],
@@ -581,6 +585,7 @@ pub fn get(id: &str, thorough: bool) -> Option<PropDef> {
         }
         "C16" => {
             let mut p = Profile::base("C16");
+            p.p_lazy = (1, 3);
             p.clients = (1, 5);
             p.ops = (2, 12);
             p.w_how = [6, 5, 6, 5, 3];
@@ -618,6 +623,8 @@ pub fn get(id: &str, thorough: bool) -> Option<PropDef> {
         }
         "C18" => {
             let mut p = Profile::base("C18");
+            p.p_par = (1, 2);
+            p.max_peer_sends = 3;
             p.actors = (1, 4);
             p.clients = (1, 5);
             p.ops = (1, 8);
@@ -652,6 +659,7 @@ pub fn get(id: &str, thorough: bool) -> Option<PropDef> {
         }
         "C20" => {
             let mut p = Profile::base("C20");
+            p.p_spin_long = (1, 400);
             p.clients = (1, 4);
             p.ops = (2, 10);
             p.spin_us = 1500;
@@ -711,7 +719,7 @@ pub fn get(id: &str, thorough: bool) -> Option<PropDef> {
             p.p_dep = (1, 4);
             p.p_task_block = (1, 4);
             p.w_how = [8, 2, 8, 2, 0];
-            p.timeouts = vec![1, 2, 5, 10, 30, 2000];
+            p.timeouts = vec![1, 2, 5, 10, 30, 2000, crate::scenario::MS_MAX];
             p.caps = vec![1, 1, 2, 3, 8, 32];
             p.max_delay = 4;
             p.p_delay = (1, 4);
